@@ -2,7 +2,7 @@
    Only statements, [exact] and [Print Assumptions] live here (and Examples). *)
 From Coq Require Import NArith ZArith List Bool Arith Sorted.
 From GV Require Import Base.Result Gen.Instr Model.StoreBase Model.BasicStore Model.SimpleStore Model.StoreOps Model.Lists
-  Spec.AssocSpec Proofs.C16.SimpleLookup Proofs.C16.SimpleBuild Proofs.C16.BasicSearch Proofs.C16.Runtime.
+  Spec.AssocSpec Proofs.C15.Stable Proofs.C16.SimpleLookup Proofs.C16.SimpleBuild Proofs.C16.BasicSearch Proofs.C16.BasicBuild Proofs.C16.Runtime.
 Import ListNotations.
 
 (* ---- SimpleGarnishData ---- *)
@@ -93,6 +93,49 @@ Print Assumptions C16_basic_search_value.
 Theorem C16_basic_sort_sorted : forall l, StronglySorted le_cell (stable_sort assoc_le l).
 Proof. exact stable_sort_sorted. Qed.
 Print Assumptions C16_basic_sort_sorted.
+
+(* ---- BasicGarnishData end to end ---- *)
+
+(* from any store satisfying the C15 invariant, start_list / add_to_list* / end_list on stored
+   items returns normally and lays the finished list out at the old end of the data table:
+   header List(n, #associations), the n items in insertion order, the association region
+   stably sorted by key *)
+Theorem C16_basic_build : forall items s, G s -> (forall a, In a items -> valid_item (data s) a) ->
+  exists s', build_list basic_ops items s = Ok (s', Done (length (data s))) /\ G s' /\ built (data s) items (data s').
+Proof. exact basic_build. Qed.
+Print Assumptions C16_basic_build.
+
+Theorem C16_basic_length : forall s T items, G s -> built T items (data s) -> get_list_len (length T) s = Ok (length items).
+Proof. exact basic_len. Qed.
+Print Assumptions C16_basic_length.
+
+Theorem C16_basic_item : forall s T items, G s -> built T items (data s) ->
+  forall k, k < length items -> get_list_item (length T) (Z.of_nat k) s = Ok (Some (nth k items 0)).
+Proof. exact basic_item. Qed.
+Print Assumptions C16_basic_item.
+
+Theorem C16_basic_item_negative : forall s T items, G s -> built T items (data s) ->
+  forall z, (z < 0)%Z -> get_list_item (length T) z s = Ok None.
+Proof. exact basic_item_negative. Qed.
+Print Assumptions C16_basic_item_negative.
+
+(* the listed finding C16-K1, as a theorem about the model of the code that exists:
+   past the end the data-level accessor of the Basic store reports an error *)
+Theorem C16_K1_basic_item_past_end_is_error : forall s T items, G s -> built T items (data s) ->
+  forall z, (Z.of_nat (length items) <= z)%Z -> get_list_item (length T) z s = Err E_list.
+Proof. exact basic_item_past_end. Qed.
+Print Assumptions C16_K1_basic_item_past_end_is_error.
+
+Theorem C16_basic_iteration : forall s T items, G s -> built T items (data s) ->
+  get_list_item_iter_all (length T) s = Ok items.
+Proof. exact basic_iter. Qed.
+Print Assumptions C16_basic_iteration.
+
+Theorem C16_basic_lookup : forall s T items, G s -> built T items (data s) ->
+  forall sym, NoDup (keys_of (map (bview T) items)) ->
+  get_list_item_with_symbol (length T) sym s = Ok (assoc_lookup sym (map (bview T) items)).
+Proof. exact basic_lookup. Qed.
+Print Assumptions C16_basic_lookup.
 
 (* ---- the runtime layer, for any data implementation ---- *)
 Theorem C16_index_list_negative : forall St (D : DataOps St) l z s, (z < 0)%Z -> index_list D l z s = Ok (s, Done None).
